@@ -74,7 +74,7 @@ amount_keys!(writes);
 
 /// a write through a (string) key changes exactly the word of the field named after it; `claimable_time_window` is write-protected
 #[kani::proof]
-#[kani::unwind(40)]
+#[kani::unwind(140)]
 #[kani::stub(anchor_lang::error::Error::with_values, super::stubs::with_values_id)]
 fn c16_store_amount_keys_write_their_named_field_only() {
     let mut s = any_store();
